@@ -307,7 +307,7 @@ func c19WriterTable(p *Prog, r *Report, mar *FuncInfo) map[string]layoutRow {
 		for _, fld := range ps {
 			for _, nm := range fld.Names {
 				if o := info.Defs[nm]; o != nil {
-					if sl, ok := o.Type().(*types.Slice); ok && types.Identical(sl.Elem(), types.Typ[types.Byte]) {
+					if sl, ok := o.Type().Underlying().(*types.Slice); ok && types.Identical(sl.Elem(), types.Typ[types.Byte]) {
 						dataObj = o
 					}
 				}
@@ -386,7 +386,7 @@ func c19ReaderTable(p *Prog, r *Report, unm *FuncInfo) map[string]layoutRow {
 	for _, fld := range unm.Decl.Type.Params.List {
 		for _, nm := range fld.Names {
 			if o := info.Defs[nm]; o != nil {
-				if sl, ok := o.Type().(*types.Slice); ok && types.Identical(sl.Elem(), types.Typ[types.Byte]) {
+				if sl, ok := o.Type().Underlying().(*types.Slice); ok && types.Identical(sl.Elem(), types.Typ[types.Byte]) {
 					dataParam = o
 				}
 			}
@@ -610,7 +610,7 @@ func c19Guards(p *Prog, r *Report, mar, unm *FuncInfo) {
 	for _, fld := range unm.Decl.Type.Params.List {
 		for _, nm := range fld.Names {
 			if o := info.Defs[nm]; o != nil {
-				if _, ok := o.Type().(*types.Slice); ok {
+				if _, ok := o.Type().Underlying().(*types.Slice); ok {
 					dataObj = o
 				}
 			}
